@@ -383,7 +383,7 @@ impl Check for C05 {
             });
         }
         super::mixed::explore_mixed(run, "C05", owns_clip, if q { 4 } else { 5 }, false);
-        super::mixed::explore_alpha(run, "C05", "cross-nested clips and layers", super::mixed::cross_alphabet(), owns_clip, if q { 6 } else { 7 }, false);
+        super::mixed::explore_alpha(run, "C05", "cross-nested clips and layers", super::mixed::cross_alphabet(), owns_clip, if q { 6 } else { 7 }, false, Dst::Distinct);
     }
 
     fn replay(&self, case: &str) -> Result<Option<Violation>, String> {
